@@ -27,6 +27,12 @@ type Action struct {
 	// itself carries on as if nothing had happened.
 	StallWhere string `json:"stallWhere,omitempty"`
 	StallExtra int64  `json:"stallExtra,omitempty"`
+	// StopReading: once this reply is out the server never reads another byte (the connection
+	// stays open; the client's writes fill the send window and then block)
+	StopReading bool `json:"stopReading,omitempty"`
+	// ResetNext: once this reply is out, the next byte the client writes meets a connection
+	// reset (the reply itself still arrives)
+	ResetNext bool `json:"resetNext,omitempty"`
 }
 
 // Rule attaches an Action to the Nth occurrence (1-based; 0 = every) of a command on a connection.
@@ -39,6 +45,9 @@ type Rule struct {
 	// counts matching lines only when NthOfMatch is set; by default Nth still counts all lines
 	// of the verb)
 	LineContains string `json:"lineContains,omitempty"`
+	// FromContains, if set, restricts the rule to commands given inside a mail transaction whose
+	// reverse-path contains this text
+	FromContains string `json:"fromContains,omitempty"`
 	Action
 }
 
@@ -259,7 +268,8 @@ func (s *Session) rule(verb string) (Action, int, bool) {
 	n := s.counts[verb]
 	for _, r := range s.srv.Cfg.Rules {
 		if r.Verb == verb && (r.Nth == 0 || r.Nth == n) && (r.Conn == 0 || r.Conn == s.ID) &&
-			(r.LineContains == "" || strings.Contains(s.curLine, r.LineContains)) {
+			(r.LineContains == "" || strings.Contains(s.curLine, r.LineContains)) &&
+			(r.FromContains == "" || (s.tx != nil && strings.Contains(s.tx.from.Mailbox(), r.FromContains))) {
 			return r.Action, n, true
 		}
 	}
@@ -470,6 +480,12 @@ func (s *Session) reply(cmdSeq int, verb string, nth int, act Action, defCode in
 		}
 	}
 	_, err := io.WriteString(s.conn, wire.String())
+	if act.StopReading {
+		s.pipe.StallC2SFrom(s.pipe.C2SLen())
+	}
+	if act.ResetNext {
+		s.pipe.ResetC2SFrom(s.pipe.C2SLen())
+	}
 	if s.stallAfterWrite > 0 {
 		s.pipe.StallS2CFrom(s.pipe.S2CLen() + s.stallAfterWrite - 1)
 		s.stallAfterWrite = 0
